@@ -105,7 +105,7 @@ def run(ctx):
     # (B) host rules and nested routers
     paths += W.mc_states(ctx, "webstatic", "Routing", "MC_Routing.cfg",
                          overrides={"Mode": "struct", "MaxRules": ctx.pick(1, 2), "Pats": {"p_a", "p_ns", "p_adig"}, "HostPats": {"h_a", "h_any"},
-                                    "Hosts": {"a.com", "b.com", "xa.com", "a.com:8080", "A.COM"}, "PathLen": 2,
+                                    "Hosts": {"a.com", "b.com", "xa.com", "a.com:8080", "A.COM", "a.com.b.com"}, "PathLen": 2,
                                     "PathToks": {"s", "a", "1", "pS"}, "ArgNames": {"a", "1"}},
                          required_actions=["dispatch", "reverse"], timeout=ctx.pick(300, 1500))
     # (C) single rules from the pattern generator
